@@ -51,6 +51,14 @@ CORPUS = [
     ("-", "let g = [1, 2]; let h = \"s\"; fn main() { for x in g { if x == 1 { continue; } println(x, h); } let r = if g.len() > 1 { \"many\" } else { \"few\" }; println(r); }"),
 ]
 CORPUS_SEEDS = list(range(1, 21))
+# (id, program, seed, passes): seeds found to hit a specific variant on the unrepaired transformer
+CORPUS_EXACT = [
+    # the guard ignored the default arm: the match is wrapped into a one-iteration loop and `break` leaves the
+    # wrapper (n = 3 instead of 1); visible once the printers keep the default arm (R6)
+    ("R9", "fn main() { let n = 0; for k in 0..3 { n += 1; match k { _ => { break; } }; } println(n); }", 30, 1),
+    ("R17", "fn main() { let p = (0 - 3) * 2; let q = (-3) * 2; let r = 3 * 2; let s = 0 * 5; let a = -4; let t = a * 3; println(p, q, r, s, t); }", 8, 3),
+    ("R8", "fn main() { let a = 10; let b = 3; let t = a - b ** 2; let u = a / b * b; println(t, u); }", 1, 2),
+]
 
 # just outside the class: the difference the class hypothesis excludes may (not must) show
 OUTSIDE = [
@@ -216,6 +224,9 @@ def run(ctx):
     for fid, src in CORPUS:
         for sd in (CORPUS_SEEDS if quick else list(range(1, 61))):
             cases.append({"main": src, "seed": sd, "passes": 1 + sd % 3, "label": f"corpus[{fid}]", "tie": sd <= 6})
+    for fid, src, sd, ps in CORPUS_EXACT:
+        cases.append({"main": src, "seed": sd, "passes": ps, "label": f"corpus[{fid}]", "tie": True})
+        cases += [{"main": src, "seed": k, "passes": 1 + k % 3, "label": f"corpus[{fid}]"} for k in range(21, 41)]
     nv, _ = judge(ctx, cases, "C20 corpus", model_ok)
     # 2. shipped programs x seeds x 1..4 passes
     shipped = shipped_programs()
